@@ -1488,6 +1488,13 @@ def c02f(chk):
         ok = sorted(vals) == ["const0", "self.precision"]
         why = "precision local assigned from %s" % vals
     chk.ob("C02.f", "Create::run/precision-passes-through-when-projecting", ok, f.loc(), why)
+    # the command line accepts every precision the formatter supports (0..=u16::MAX): the tightest bound implied where Ok(p) is built is 65535
+    pp = chk.fn("sfs::parse_precision")
+    if pp is not None:
+        oks = [(b, rv) for b, i, p, rv, s_ in pp.assigns() if p[0] == 0 and rv["k"] == "aggregate" and rv.get("variant") == "Ok"]
+        bounds = [an.implied_upper_bound(pp, b, rv["ops"][0]) for b, rv in oks]
+        chk.ob("C02.f", "parse_precision/accepts-every-p<=65535", bool(oks) and all(x is None or x >= 65535 for x in bounds), pp.loc(),
+               "values for which --precision is accepted: p <= %s (the formatter's own limit is u16::MAX = 65535; a tighter limit refuses a documented value)" % bounds)
 
 
 # ====================================================================================
